@@ -87,6 +87,54 @@ def run_ctl_part(chk, tier, jobs):
     cov["idle_probes_with_open_control_sessions"] = probes
 
 
+def run_fork_part(chk, tier, jobs):
+    """C16's converse clause across fork(): the readiness machinery behind xcm_fd is an epoll instance that a forked child
+    shares with its parent; a child that only cleans up (xcm_cleanup) must not alter it, or the owner's later xcm_await calls
+    are no-ops and its descriptor stays silent for good.  The process-local virtual clock cannot show the consequence, so
+    the alteration is caught at the call (envshim's child-alteration ledger), in the fork scenarios of h_life (C08's
+    harness): every 'C08/cleanup-altered-owner/epoll_ctl...' report is a C16 violation as well."""
+    import os
+    import copy
+    import harnesses
+    from checks import C08 as c08
+    q = tier == "quick"
+    exe = harnesses.build_explorer_harness("h_life", variant="plain", extra_wraps=c08.EXTRA_WRAPS)
+    env = dict(os.environ, MCX_NO_PIN="1")
+    cov = chk.coverage
+    scs = ["sc=conn-cps,ctl=on,forkat=%d" % k for k in range(1, 7)] + ["sc=server,ctl=on,forkat=1", "sc=handover,ctl=on",
+                                                                       "sc=forkn,ctl=on"]
+    forks = 0
+    for tp in ("tcp", "btcp", "tls", "btls", "utls", "ux"):
+        for sc in scs:
+            params = "tp=%s,%s" % (tp, sc)
+            if tp in c08.TLSISH:
+                params += "," + msgfamily.certs()
+            res = harnesses.explore(exe, params, 0 if q else 1, 60 if q else 300, jobs=jobs, env=env)
+            res = copy.copy(res)
+            vs = []
+            for v in res.get("violations", []):
+                if v["signature"].startswith("C08/cleanup-altered-owner/epoll_ctl"):
+                    v = dict(v)
+                    v["signature"] = "C16/registration-altered-by-forked-cleanup/" + v["signature"].split("/", 2)[2]
+                    v["text"] = ("a forked child's xcm_cleanup altered the epoll instance behind the owner's xcm_fd (the owner's later "
+                                 "xcm_await calls change nothing and the descriptor stays silent): " + v["text"])
+                    vs.append(v)
+            res["violations"] = vs
+            res["infos"] = []
+            harnesses.merge_into(chk, res, PREFIXES, params)
+            for k in ("states", "transitions", "executions"):
+                cov[k] = cov.get(k, 0) + res.get(k, 0)
+            cov["traces_validated_against_impl"] = cov.get("traces_validated_against_impl", 0) + res.get("executions", 0)
+            cov["evaluations"] = cov.get("evaluations", 0) + res.get("executions", 0)
+            cov["configurations"] = cov.get("configurations", 0) + 1
+            forks += (res.get("counters") or [0] * 6)[5]
+            cov.setdefault("per_configuration", []).append(
+                dict(params=params, bound=0 if q else 1, build="plain", harness="h_life", executions=res.get("executions"),
+                     completed_bound=res.get("completed_bound"), wall_s=round(res.get("elapsed", 0), 2)))
+    cov["forked_cleanups_observed"] = forks
+    c08.cleanup_scratch()
+
+
 def run(chk, tier, jobs, deadline):
     chk.assumptions += ASSUME
     chk.assumptions.append("control interface: 1-3 control sessions kept open (the third beyond the two-entry session table) after "
@@ -96,3 +144,4 @@ def run(chk, tier, jobs, deadline):
                           deadline or (420 if tier == "quick" else 1500),
                           counter_names={0: "quiescent_points_evaluated"})
     run_ctl_part(chk, tier, jobs)
+    run_fork_part(chk, tier, jobs)
